@@ -499,3 +499,82 @@ pub fn run(rep: &mut Report, tier: &str, miri: bool) {
         rep.require("non_members_tried", 100_000);
     }
 }
+
+// ------------------------------------------------------------------------------------------------
+// small sweep for the interpreter (SAN add-on): every lookup function, a seeded sample of members and non-members
+
+fn small_names<T: NameEnum>(listing: &[(T, &str, u32)], rng: &mut Rng, events: &mut u64, viols: &mut Vec<String>) {
+    let kind = T::KIND;
+    // (no hash set of all member texts here: building it costs the interpreter minutes) a hit whose own text is the candidate is a member
+    let wrongly_accepted = |cand: &[u8]| T::parse_bytes(cand).filter(|hit| hit.to_text().as_bytes() != cand);
+    for _ in 0..40 {
+        let (item, text, n) = &listing[rng.below(listing.len())];
+        *events += 1;
+        // from_bytes goes through the perfect hash and transmute::<u16, Self>
+        if T::parse_bytes(text.as_bytes()) != Some(*item) || T::parse_str(text) != Some(*item) || item.to_text() != *text || item.discr() != *n {
+            viols.push(format!("sig=C18:names/member-lookup:{kind} detail={text}"));
+        }
+        let mut buf = Vec::new();
+        neighbours(text, &mut buf);
+        for _ in 0..6 {
+            let cand = &buf[rng.below(buf.len())];
+            *events += 1;
+            if let Some(hit) = wrongly_accepted(cand) {
+                viols.push(format!("sig=C18:names/non-member-accepted:{kind} detail={:?} -> {hit:?}", crate::json::show_bytes(cand, 60)));
+            }
+        }
+    }
+    for cand in [&b""[..], &[0xff, 0xfe], &[0xc3, 0x28], b"\0", &[b'A'; 300]] {
+        *events += 1;
+        if wrongly_accepted(cand).is_some() {
+            viols.push(format!("sig=C18:names/non-member-accepted:{kind} detail={:?}", crate::json::show_bytes(cand, 60)));
+        }
+    }
+}
+
+pub fn small_lookup_sweep(seed: u64) -> (u64, Vec<String>) {
+    let mut rng = Rng::derive(seed, "san-lookup", 0);
+    let mut events = 0;
+    let mut viols = Vec::new();
+    small_names(ELEMENT_NAME_LISTING, &mut rng, &mut events, &mut viols);
+    small_names(ATTRIBUTE_NAME_LISTING, &mut rng, &mut events, &mut viols);
+    small_names(ENUM_ITEM_LISTING, &mut rng, &mut events, &mut viols);
+    for (v, xsd, val) in VERSION_LISTING {
+        events += 1;
+        if AutosarVersion::from_str(xsd).ok() != Some(*v) || AutosarVersion::from_val(*val) != Some(*v) {
+            viols.push(format!("sig=C18:versions/lookup detail={xsd}"));
+        }
+    }
+    // element type lookups along a random descent from the root
+    for _ in 0..6 {
+        let mut t = ElementType::ROOT;
+        for _ in 0..12 {
+            let subs: Vec<(ElementName, ElementType)> = t
+                .sub_element_spec_iter()
+                .map(|(name, etype, _, _)| (name, etype))
+                .collect();
+            if subs.is_empty() {
+                break;
+            }
+            let (name, etype) = subs[rng.below(subs.len())];
+            events += 1;
+            match t.find_sub_element(name, u32::MAX) {
+                Some((found, _)) => {
+                    // the same name can be listed under several groups; the lookup must return one of the listed types
+                    if found != etype && !subs.iter().any(|(n, e)| *n == name && *e == found) {
+                        viols.push(format!("sig=C18:types/find_sub_element detail={name:?}"));
+                    }
+                    t = found;
+                }
+                None => {
+                    viols.push(format!("sig=C18:types/find_sub_element-none detail={name:?}"));
+                    break;
+                }
+            }
+            let _ = t.chardata_spec();
+            let _ = t.attribute_spec_iter().count();
+            let _ = t.reference_dest_value(&etype);
+        }
+    }
+    (events, viols)
+}
